@@ -226,6 +226,25 @@ func buildStateGraph(p *core.Program, a *Anchors, r *core.Result) *stateGraph {
 					}
 				case ssa.CallInstruction:
 					to := x.Common().StaticCallee()
+					if to == nil && !x.Common().IsInvoke() {
+						if _, isBuiltin := x.Common().Value.(*ssa.Builtin); !isBuiltin {
+							// a state taken from a local table of alternatives: one immediate edge per row
+							tos, ok := localTableFuncs(p, resolve(x.Common().Value))
+							if !ok {
+								r.Fail("G", core.QualName(fn), "dynamic call "+ssax.Canon(x.Common().Value), p.Pos(x.Pos()), "a state function calls a function value that is not an entry of a local table literal (undecided transition)")
+								continue
+							}
+							for _, t2 := range tos {
+								if g.Nodes[t2] == nil {
+									continue
+								}
+								e := &sgEdge{From: owner, To: t2, Deferred: false, Site: at(x), Facts: getFacts()}
+								n.Out = append(n.Out, e)
+								g.Nodes[t2].In = append(g.Nodes[t2].In, e)
+							}
+							continue
+						}
+					}
 					if to != nil && g.Nodes[to] != nil {
 						e := &sgEdge{From: owner, To: to, Deferred: false, Site: at(x), Facts: getFacts()}
 						n.Out = append(n.Out, e)
@@ -260,29 +279,46 @@ func buildStateGraph(p *core.Program, a *Anchors, r *core.Result) *stateGraph {
 		}
 		// candidate flags: constants the parameter is compared with
 		cands := map[int64]bool{}
+		comparedWith := map[int64]bool{}
 		for _, b := range initFn.Blocks {
 			for _, ins := range b.Instrs {
 				if bo, ok := ins.(*ssa.BinOp); ok && bo.Op == token.EQL && bo.X == ssa.Value(flagP) {
 					if k, ok := ssax.ConstInt(bo.Y); ok {
 						cands[k] = true
+						comparedWith[k] = true
 					}
+				}
+			}
+		}
+		// (a table of start states indexed by the flag has no comparisons: try the declared context flags too)
+		for _, role := range []string{"xss.flagData", "xss.flagNoQuote", "xss.flagSingle", "xss.flagDouble", "xss.flagBack"} {
+			if name, ok := a.Consts[role]; ok {
+				if v, ok := p.ConstInt(name); ok {
+					cands[v] = true
 				}
 			}
 		}
 		for k := range cands {
 			sc := ssax.RunSCCP(initFn, map[*ssa.Parameter]interface{}{flagP: k}, p.Pkg.TypesSizes)
 			var targets []*ssa.Function
+			stores := 0
 			for _, b := range initFn.Blocks {
 				if !sc.ExecBlock[b] {
 					continue
 				}
 				for _, ins := range b.Instrs {
 					if st, ok := ins.(*ssa.Store); ok && a.isField(st.Addr, "xss.state.state") {
+						stores++
 						if to := boundTarget(p, st.Val); to != nil {
+							targets = append(targets, to)
+						} else if to := localTableEntry(p, sc, st.Val); to != nil {
 							targets = append(targets, to)
 						}
 					}
 				}
+			}
+			if stores == 0 && !comparedWith[k] {
+				continue // a declared flag this init neither compares nor indexes with: X2 reports the missing start state
 			}
 			if len(targets) == 1 {
 				g.Starts[k] = targets[0]
@@ -474,4 +510,128 @@ func (g *stateGraph) describe(p *core.Program) map[string]interface{} {
 	out["_edges"] = nEdges
 	out["_nodes"] = len(g.Nodes)
 	return out
+}
+
+// localTableEntry: v is a load of table[k] where table is a local array literal
+// (written only at constant indices) and k is constant under the propagation sc;
+// returns the state method stored at that index.
+func localTableEntry(p *core.Program, sc *ssax.SCCP, v ssa.Value) *ssa.Function {
+	if ct, ok := v.(*ssa.ChangeType); ok {
+		v = ct.X
+	}
+	ld, ok := v.(*ssa.UnOp)
+	if !ok || ld.Op != token.MUL {
+		return nil
+	}
+	ia, ok := ld.X.(*ssa.IndexAddr)
+	if !ok {
+		return nil
+	}
+	base := ia.X
+	if sl, isSl := base.(*ssa.Slice); isSl && sl.Low == nil && sl.High == nil {
+		base = sl.X
+	}
+	al, ok := base.(*ssa.Alloc)
+	if !ok {
+		return nil
+	}
+	kv, known := sc.ValueOf(ia.Index)
+	k, isInt := kv.(int64)
+	if !known || !isInt {
+		return nil
+	}
+	var found *ssa.Function
+	n := 0
+	for _, ref := range *al.Referrers() {
+		wa, ok := ref.(*ssa.IndexAddr)
+		if !ok || wa == ia {
+			continue
+		}
+		wk, isConst := ssax.ConstInt(wa.Index)
+		for _, r2 := range *wa.Referrers() {
+			st, isStore := r2.(*ssa.Store)
+			if !isStore || st.Addr != ssa.Value(wa) {
+				continue
+			}
+			if !isConst {
+				return nil // written at a variable index: not a table literal
+			}
+			if wk == k {
+				n++
+				found = boundTarget(p, st.Val)
+			}
+		}
+	}
+	if n != 1 {
+		return nil
+	}
+	return found
+}
+
+// localTableFuncs: v is a load of a function-typed entry (or field of an entry) of a
+// local array literal; returns every function stored in that column.
+func localTableFuncs(p *core.Program, v ssa.Value) ([]*ssa.Function, bool) {
+	if ct, ok := v.(*ssa.ChangeType); ok {
+		v = ct.X
+	}
+	ld, ok := v.(*ssa.UnOp)
+	if !ok || ld.Op != token.MUL {
+		return nil, false
+	}
+	field := -1
+	addr := ld.X
+	if fa, ok := addr.(*ssa.FieldAddr); ok {
+		field = fa.Field
+		addr = fa.X
+	}
+	// the row pointer may be a variable `row := &table[i]`
+	ia, ok := addr.(*ssa.IndexAddr)
+	if !ok {
+		return nil, false
+	}
+	base := ia.X
+	if sl, isSl := base.(*ssa.Slice); isSl && sl.Low == nil && sl.High == nil {
+		base = sl.X
+	}
+	al, ok := base.(*ssa.Alloc)
+	if !ok || al.Referrers() == nil {
+		return nil, false
+	}
+	var out []*ssa.Function
+	for _, ref := range *al.Referrers() {
+		wa, ok := ref.(*ssa.IndexAddr)
+		if !ok || wa.Referrers() == nil {
+			continue
+		}
+		_, isConst := ssax.ConstInt(wa.Index)
+		for _, r2 := range *wa.Referrers() {
+			var st *ssa.Store
+			switch y := r2.(type) {
+			case *ssa.Store:
+				if field < 0 && y.Addr == ssa.Value(wa) {
+					st = y
+				}
+			case *ssa.FieldAddr:
+				if y.Field == field && y.Referrers() != nil {
+					for _, r3 := range *y.Referrers() {
+						if s3, ok := r3.(*ssa.Store); ok && s3.Addr == ssa.Value(y) {
+							st = s3
+						}
+					}
+				}
+			}
+			if st == nil {
+				continue
+			}
+			if !isConst {
+				return nil, false
+			}
+			f := boundTarget(p, st.Val)
+			if f == nil {
+				return nil, false
+			}
+			out = append(out, f)
+		}
+	}
+	return out, len(out) > 0
 }
